@@ -42,4 +42,14 @@ TEXT = {
         "note": "Trusted: Lean kernel (+3 standard axioms), the hand-written table of exported kinds (validated against the real round trip each run), harness raw-store dump. Known findings: storage.FileProof, rns.PrimaryName, notification.Block, jklmint.MintedBlock are not exported.",
         "technique": "Lean 4 round-trip theorem per record kind + real export/import round trip compared with the model's table",
     },
+    "C04": {
+        "level": "Theorems for every state and input of the buyStorage / pay-once postFile models (exact sdk.Dec arithmetic): the payer is debited exactly the computed price, the gauge account receives exactly what the gauge records, POL and referrer (or the stakers' pool) receive their percentages as exact floors (POL lowered by the referral discount), the module keeps a non-negative remainder, credits never exceed the debit under ref+pol <= 100, no other balance changes, the sum over the involved accounts is conserved, failed purchases change nothing (C04_buy_accounting, C04_shares_closed_form, C04_credits_le_debit, C04_supply_unchanged, C04_postFile_payonce_accounting ...). Tied to the code by the per-step correspondence (price formula included) on every run.",
+        "note": "Trusted: Lean kernel (+3 standard axioms), harness/abs/driver tie, bank keeper as ledger, JKL price and rns.Resolve as oracle inputs. Assumes payer, module, gauge, POL, fee-pool and referrer accounts are pairwise distinct where stated.",
+        "technique": "Lean 4 theorems over exact sdk.Dec handler models + per-step model/implementation correspondence",
+    },
+    "C15": {
+        "level": "Invariant proved for every message of the storage model, the reward block and parameter changes, lifted by induction to all histories: escrow balance = sum of recorded collaterals (C15_escrow_invariant_step/_block/_params, C15_escrow_invariant); init locks exactly the current price, shutdown returns exactly the recorded amount whatever the price is now, no second claim, no foreign claim. Tied to the code by the per-step correspondence on every run.",
+        "note": "Trusted: Lean kernel (+3 standard axioms), harness/abs/driver tie, bank keeper as ledger. Assumes the escrow module account is a blocked recipient (app.BlockedAddrs, observed by the harness) and differs from the storage module and fee-pool accounts.",
+        "technique": "Lean 4 invariant by induction over histories + per-step model/implementation correspondence",
+    },
 }
